@@ -186,6 +186,10 @@ class AuthorizationServer(BaseServer):
         if not token:
             raise InvalidTokenError()
 
+        # the temporary credential must have been issued to this client
+        if token.get_client_id() != request.client_id:
+            raise InvalidTokenError()
+
         verifier = request.oauth_params.get("oauth_verifier")
         if not verifier:
             raise MissingRequiredParameterError("oauth_verifier")
